@@ -53,6 +53,9 @@ ASSUMPTIONS = ["token patterns never match the empty string (the real tokenizer 
                "every match of `re` ends inside its line (hypothesis `ReIn` of tok_orig_text / node_orig_text; checked "
                "by the driver on every request: `tableOk`)",
                "lines of a list-of-lines input contain no '\\n'",
+               "str input: the theorems about tokens cover the right-stripped lines (what the tokenizer iterates over); "
+               "trailing whitespace of a line belongs to no token",
+               "node_orig_text / parse_node_orig_text: the input is not the list of zero lines",
                "span matchers have a named group (the code reads match.lastgroup)",
                "texts are sequences of Unicode scalar values (lone surrogates are never generated: the protocol's "
                "Char.ofNat has no value for them)"]
@@ -1152,8 +1155,20 @@ LEVEL_TEXT = (
     "tokenizer model. Model = code is established by a differential run of the compiled model against the real "
     "tokenizer, get_orig_text and parser (7 configurations incl. one where BOM / NUL / zero-width characters are blanks and combining marks / astral characters are letters, texts with such characters at the start of the text, of a line, inside tokens, '\\r' and '\\r\\n' line ends; 17 grammars incl. 8 that roll back into empty / all-nullable "
     "alternatives and a ProdSequence, both smart_factorization values, str / list / tuple input); the oracle restates "
-    "the property on the real objects.")
+    "the property on the real objects. Caveats: for a `str` the token theorems speak about the right-stripped lines "
+    "the tokenizer iterates over (trailing blanks of a line are in no token); the orig-text theorems of nodes assume "
+    "the input is not the list of zero lines; non-emptiness of every token is proved from the model, not assumed.")
 LEVEL_NOTE = (
+    "Caveats of the span theorems. (1) For a `str` the tokenizer iterates over the RIGHT-STRIPPED lines (`tokLines`): "
+    "tok_cover / tok_cover_unique / lex_error_* speak about the characters of those lines - trailing `str.isspace` "
+    "characters of a line lie in no token and never raise a LexicalError; get_orig_text theorems slice the caller's "
+    "unstripped text (`origLines`), a multi-line region therefore contains the trailing blanks of its inner lines. "
+    "(2) node_orig_text / parse_node_orig_text assume `inp != lines []` (a list of zero lines has no line to slice; a "
+    "`str` always has one - discharged by tokLines_ne_nil) and ReIn. (3) That every token of the text is non-empty "
+    "(start < end; only $END$ is empty) is NOT assumed: it is proved from the tokenizer model (tok_monotone) - a "
+    "zero-width match makes the model stop with OUT-OF-FUEL, as the real loop never ends. (4) node_span assumes the "
+    "tree does not swallow $END$ (hk), which parse_node_span proves for every tree the parse returns. Each "
+    "conditional theorem has an `example` in Props/C04.lean on which all its hypotheses hold. "
     "Kernel-checked theorems (C04.*): tok_adjacent, tok_line_start, tok_monotone, tok_orig_text, orig_text_exact, "
     "tok_cover, tok_cover_unique, end_token, node_span, node_span_unique, node_orig_text, parse_is_ll_run (forgetting "
     "positions gives the run of the LL model of C01), parse_node_span, parse_node_orig_text, parse_error_pos, "
